@@ -37,6 +37,22 @@ Theorem C10_adjoint_sums :
     = Sum R r0 radd n (fun j => if nth j pindex 0 =? b then get R r0 x (idx3 n post i1 j i3) else r0).
 Proof. intros R r0 r1 radd rmul rsub ropp rdiv rinv F. exact (dist_adjoint_get R r0 r1 radd rmul rsub ropp rdiv rinv F). Qed.
 
+(* Per-bin sums are independent of the other bins: if two inputs agree on the members of bin b (in
+   column (i1, i3)), the adjoint's entry (i1, b, i3) is the same -- no rounding error, overflow or
+   non-finite value of another bin can leak into it.  The correspondence uses this to compare the
+   clean bins exactly when single bins of the implementation's input hold inf / nan. *)
+Theorem C10_adjoint_bin_independent :
+  forall (R : Type) (r0 r1 : R) (radd rmul rsub : R -> R -> R) (ropp : R -> R)
+         (rdiv : R -> R -> R) (rinv : R -> R),
+    field_theory r0 r1 radd rmul rsub ropp rdiv rinv eq ->
+    forall pre n post nbin pindex x x' i1 b i3,
+    length pindex = n -> Forall (fun i => i < nbin) pindex ->
+    i1 < pre -> b < nbin -> i3 < post ->
+    (forall j, j < n -> nth j pindex 0 = b -> get R r0 x (idx3 n post i1 j i3) = get R r0 x' (idx3 n post i1 j i3)) ->
+    get R r0 (dist_adjoint R r0 radd pre n post nbin pindex x) (idx3 nbin post i1 b i3)
+    = get R r0 (dist_adjoint R r0 radd pre n post nbin pindex x') (idx3 nbin post i1 b i3).
+Proof. intros R r0 r1 radd rmul rsub ropp rdiv rinv F. exact (dist_adjoint_independent R r0 r1 radd rmul rsub ropp rdiv rinv F). Qed.
+
 (* <y, D x> = <D^T y, x> for the flat inner products  dot N a b = Sum_{t<N} a[t]*b[t]. *)
 Theorem C10_adjointness :
   forall (R : Type) (r0 r1 : R) (radd rmul rsub : R -> R -> R) (ropp : R -> R)
